@@ -20,6 +20,7 @@ import (
 // ---------- randomness source with logging and fault injection ----------
 
 type logRand struct {
+	history [][]byte // every successful read, kept for the memory oracles
 	forced  [][]byte // outputs to hand out first (prefix of each read), for adversarial randomness
 	r       *rand.Rand
 	log     []string
@@ -48,6 +49,7 @@ func (l *logRand) Read(p []byte) (int, error) {
 		l.forced = l.forced[1:]
 	}
 	l.log = append(l.log, hex.EncodeToString(p))
+	l.history = append(l.history, append([]byte{}, p...))
 	return len(p), nil
 }
 
